@@ -13,8 +13,8 @@ from ..oracle import spectrum as O
 LEVEL = "fault_enumeration"
 NEEDS = ["harness", "cli"]
 EXHAUSTIVE = {"quick": True, "thorough": True}
-RULE = ("npy files (1-4 axes, 136-700 bytes, dtypes f8/f4/i4/u2/i8, versions 1-3): every truncation offset 0..len-1 and every extension 1..16 (random "
-        "and zero bytes) at L for all files and at C (view, fold, stat) for a subset; text files: every single token removal, duplication/insertion "
+RULE = ("npy files (1-4 axes, 136-700 bytes, dtypes f8/f4/i4/u2/i8, versions 1-3): every truncation offset 0..len-1 and every extension 1..16 (random, zero "
+        "and whitespace-only bytes), declared shapes that disagree with the number of values incl. products that agree only modulo 2^64, at L for all files and at C (view, fold, stat) for a subset; text files: every single token removal, duplication/insertion "
         "(on the value line and on extra lines), and shape edits that change the product; each damaged input must be REJECTED: Err at L; exit != 0, "
         "empty stdout, no panic at C. Non-trivial: every damaged input; distinct = digest(bytes).")
 ASSUMPTIONS = ["a text shape edit that keeps the product (e.g. 2/6 -> 3/4) is a different valid file and is not generated",
@@ -87,6 +87,53 @@ def check_npy(S, p):
                 S.count("C_npy_%s" % sub[0])
                 check_cli_reject(S, r, "npy %s %r %s %r via %s" % (descr, shape, what, arg, "path" if via_path else "stdin"), sub, d)
                 S.case(key="%s|%s|%s|%r" % (digest(data), sub[0], what, arg), nontrivial=True)
+
+
+WS_FILLS = [b"\n", b" ", b"\t", b"\r", b"\x0c", b"\r\n", b" \n\t"]
+
+
+def check_npy_extras(S, p):
+    """Whitespace-only extensions (a lenient reader might trim them) and npy headers whose declared shape disagrees with the
+    number of values, incl. products that only agree modulo 2^64 - through the auto-detecting reader (L read_file) and the CLI."""
+    seed = S.seed
+    from ..oracle import npyfmt
+    rng = rng_for(seed, "c16", p["name"], "extras")
+    shape, descr, data = gen_npy(rng)
+    damaged = []
+    for n in range(1, 17):
+        for fill in WS_FILLS:
+            damaged.append(("whitespace extension %d x %r" % (n, fill), data + (fill * n)[:n]))
+    # declared shape vs number of values
+    parsed = npyfmt.parse(data)
+    payload = parsed["payload"]
+    item = int(descr[2:])
+    nvals = len(payload) // item
+    version = parsed["version"]
+    shapes = [[nvals + 1], [nvals - 1] if nvals > 1 else [nvals + 2], shape + [2], [2] + shape, [nvals + (1 << 64) // item], [(1 << 64) // item + nvals, 1],
+              [1 << 32, 1 << 32], [nvals, 1 << 61], [(1 << 61) + nvals] if item == 8 else [(1 << 62) + nvals], [nvals * 2], [max(1, nvals // 2)] if nvals // 2 != nvals else [nvals + 3]]
+    for sh in shapes:
+        if O.prod(sh) == nvals:
+            continue
+        hdr = "{'descr': '%s', 'fortran_order': False, 'shape': (%s,), }" % (descr, ", ".join(map(str, sh)))
+        damaged.append(("declared shape %r for %d values" % (sh, nvals), npyfmt.build(hdr, payload, version)))
+    reqs = [{"op": "read_file", "path": E.tmpfile(d, ".npy")} for _, d in damaged] + [{"op": "read_npy", "data": d.hex()} for _, d in damaged]
+    res = harness.run_all(reqs)
+    for k, ((desc, d), r) in enumerate(zip(damaged + damaged, res)):
+        S.count("L_extensions" if "extension" in desc else "L_shape_edits")
+        wit = {"level": "L", "file_hex": d.hex(), "damage_desc": desc, "via": "read_file" if k < len(damaged) else "read_npy"}
+        if "panic" in r or r.get("died"):
+            S.viol("C16:panic:%s" % panic_sig(str(r.get("panic", ""))), "[L npy %s %r: %s] panicked: %s" % (descr, shape, desc, str(r)[:200]), wit)
+        elif "data" in r:
+            S.viol("C16:accepted:%s" % ("extension" if "extension" in desc else "shape-mismatch"), "[L %s npy %s %r: %s] was read as shape %r with %d values" % (
+                wit["via"], descr, shape, desc, r["shape"], len(r["data"])), wit)
+        S.case(key="%s|%s|%d" % (digest(d), desc, k), nontrivial=True)
+    for k, (desc, d) in enumerate(damaged):
+        sub = SUBS[k % 3]
+        r = cli.sfs(sub, stdin=d) if k % 2 else cli.sfs(sub + [E.tmpfile(d, ".npy")])
+        S.count("C_damaged_runs")
+        S.count("C_npy_extras")
+        check_cli_reject(S, r, "npy %s %r: %s" % (descr, shape, desc), sub, d)
+        S.case(key="%s|C|%s" % (digest(d), desc), nontrivial=True)
 
 
 def check_cli_reject(S, r, what, sub, d):
@@ -168,6 +215,7 @@ def shard(S, p):
             S.inconc("witness carries argv + input for manual replay")
         return
     check_npy(S, p)
+    check_npy_extras(S, p)
     check_text(S, p)
 
 
